@@ -136,6 +136,7 @@ const magicByteOffset = 16
 // could not be read.
 func (rs *RecordSet) ReadFrom(r io.Reader) (int64, error) {
 	d, _ := r.(*decoder)
+	embedded := d != nil // the record set is a field of an enclosing frame
 	if d == nil {
 		d = &decoder{
 			reader: r,
@@ -155,7 +156,7 @@ func (rs *RecordSet) ReadFrom(r io.Reader) (int64, error) {
 		return 4, nil
 	}
 
-	if int(size) > d.remain && limit != 4 {
+	if embedded && int(size) > d.remain {
 		// The record set is embedded in a frame (r is the frame's decoder)
 		// and announces more bytes than the frame has left: reading on would
 		// consume the following frames and leave d.remain negative.
